@@ -10,8 +10,11 @@ import (
 	"regexp"
 	"runtime/debug"
 	"sort"
+	"strconv"
 	"strings"
 	"time"
+
+	"golang.org/x/tools/go/ssa"
 )
 
 type FuncResult struct {
@@ -26,6 +29,7 @@ type FuncResult struct {
 	Bounded  map[string]int
 	Aborted  string // non-empty: undecided (tool limit / out of subset)
 	Vacuous  string
+	Unreached []string // source lines of blocks no feasible path entered
 	Secs     float64
 	Instrs   int
 	File     string
@@ -55,6 +59,7 @@ func (x *Exec) verify(con *Contract) (fres *FuncResult) {
 	x.notes = fres.Notes
 	x.boundedNotes = fres.Bounded
 	x.aborted = ""
+	x.visitedBlocks = map[*ssa.BasicBlock]bool{}
 	x.instrs = 0
 	x.lastArgs = map[string]*Val{}
 	x.maxPaths = 4096
@@ -118,7 +123,7 @@ func (x *Exec) verify(con *Contract) (fres *FuncResult) {
 		// free variables are pointers to the captured variables; spec names refer to their contents
 	}
 	// A7: receiver non-nil ; A2: pointer parameters of the same type are distinct objects
-	if fn.Signature.Recv() != nil && len(args) > 0 && args[0].K == kPtr {
+	if fn.Signature.Recv() != nil && len(args) > 0 && args[0].K == kPtr && !con.has("nilrecv") {
 		x.assume(st, Neq(args[0].L.Base, IntLit(0)), "A7 receiver non-nil")
 	}
 	if !con.has("mayalias") {
@@ -141,6 +146,16 @@ func (x *Exec) verify(con *Contract) (fres *FuncResult) {
 			if a.K == kSlice {
 				sls = append(sls, a)
 			}
+		}
+		if con.has("zerooffset") {
+			// A8 (per contract): a slice parameter shares its backing array with no other slice the
+			// function reaches, so it may be taken to start at element 0 of that array without loss
+			// of generality (keeps quantified facts about its elements free of index arithmetic)
+			for _, s := range sls {
+				x.assume(st, Eq(s.Off, IntLit(0)), "A8 slice parameter at offset 0")
+				s.Off = IntLit(0)
+			}
+			x.note("A8: slice parameters taken at offset 0 of their backing arrays (not shared with other reachable slices)")
 		}
 		for i := 0; i < len(sls); i++ {
 			for j := i + 1; j < len(sls); j++ {
@@ -206,6 +221,37 @@ func (x *Exec) verify(con *Contract) (fres *FuncResult) {
 	})
 	if returns == 0 && !con.has("noreturn") && x.aborted == "" {
 		fres.Vacuous = "no feasible path reaches a return"
+	}
+	// block coverage: code of the function that no feasible path reached was not verified at all
+	// (a contradictory precondition or callee contract makes everything behind it pass vacuously).
+	// Blocks listed under "deadcode L1,L2,.." (source lines) are expected to be unreachable.
+	if x.aborted == "" && !con.has("stopatsink") {
+		dead := map[int]bool{}
+		for _, s := range strings.Split(con.Flags["deadcode"], ",") {
+			if n, err := strconv.Atoi(strings.TrimSpace(s)); err == nil {
+				dead[n] = true
+			}
+		}
+		var missed []string
+		for _, b := range fn.Blocks {
+			if x.visitedBlocks[b] || b.Comment == "recover" {
+				continue
+			}
+			line := 0
+			for _, in := range b.Instrs {
+				if p := in.Pos(); p.IsValid() {
+					line = x.w.Fset.Position(p).Line
+					break
+				}
+			}
+			if line == 0 || dead[line] {
+				continue
+			}
+			missed = append(missed, fmt.Sprintf("%d(%s)", line, b.Comment))
+		}
+		if len(missed) > 0 {
+			fres.Unreached = missed
+		}
 	}
 	return
 }
@@ -286,9 +332,9 @@ func dischargeAll(frs []*FuncResult, timeoutMs int, workers int, dumpDir string)
 					o.Res = Discharge(body, timeoutMs, false)
 				}
 				o.Done = true
-				if dumpDir != "" && o.Res.V != Unsat {
+				if dumpDir != "" && (o.Res.V != Unsat || os.Getenv("GCV_DUMPALL") != "") {
 					os.MkdirAll(dumpDir, 0o755)
-					os.WriteFile(dumpDir+"/"+sanitizeFile(o.Name)+".smt2", []byte(scriptFor("z3", body, timeoutMs, true)), 0o644)
+					os.WriteFile(dumpDir+"/"+sanitizeFile(o.Name)+fmt.Sprintf("-%p", o)+".smt2", []byte(scriptFor("z3", body, timeoutMs, true)), 0o644)
 				}
 			})
 		}
